@@ -520,7 +520,9 @@ impl MachineState {
                     }
                     (HeapCellValueTag::PStrLoc, pstr_loc) => {
                         if n == 1 || n == 2 {
-                            let a3 = self.registers[3];
+                            // unify_char expects a dereferenced cell: a reference to a
+                            // bound variable must not be bound again
+                            let a3 = self.store(self.deref(self.registers[3]));
                             let mut char_iter = self.heap.char_iter(pstr_loc);
 
                             if let Some(c) = char_iter.next() {
